@@ -56,7 +56,7 @@ Proof. unfold wf_local. intros -> ->. auto. Qed.
 Lemma INV_map_pred st0 c0 : map_pred (INV st0 c0).
 Proof.
   intros st c log st' c' log' Es Ec Ecs Ecc Hl [Is Ic Isg Icg If Iw Ihs Ihc].
-  split; unfold holds_svc, holds_chk in *; rewrite ?Es, ?Ec, ?Ecs, ?Ecc; auto.
+  split; unfold holds_svc, holds_ce, holds_chk_upto in *; rewrite ?Es, ?Ec, ?Ecs, ?Ecc; auto.
   - eapply wf_local_ext; eauto.
   - intros id e d L S D F. destruct (Ihs id e d L S D F) as [?|[(x & Hx & ?)|?]]; auto.
     right; left. exists x. auto.
@@ -100,7 +100,7 @@ Theorem no_false_insync_changes g os oc st c fs st' c' fs' log err :
   (forall id e d, l_svcs st' !! id = Some e -> se_sync e = true -> se_del e = false -> se_def e = Some d ->
      holds_svc c' id d \/ refused_svc log id \/ l_svcs st !! id = Some e) /\
   (forall id e d, l_chks st' !! id = Some e -> ce_sync e = true -> ce_del e = false -> ce_def e = Some d ->
-     holds_chk c' id d \/ refused_chk log id \/ l_chks st !! id = Some e).
+     holds_ce c' id e d \/ refused_chk log id \/ l_chks st !! id = Some e).
 Proof.
   intros W E. pose proof (sync_changes_INV _ _ _ _ _ _ _ _ _ _ _ W E) as I. split.
   - intros id e d L S D F. destruct (inv_hs _ _ _ _ _ I id e d L S D F) as [?|[?|[? _]]]; auto.
@@ -125,18 +125,35 @@ Proof.
   - injection L' as <-. cbn in D. discriminate.
 Qed.
 
+Lemma chk_isame_core b d r : chk_isame d r = true -> chk_core_upto b r = chk_core_upto b d.
+Proof.
+  unfold chk_isame, chk_cmp, chk_core_upto. intros H. apply bool_decide_eq_true in H.
+  injection H as E1 E2 E3 E4 E5 E6. rewrite E1, E2, E3, E4. reflexivity.
+Qed.
+
+Lemma chk_isame_blank_core d r : chk_isame (chk_blank d) (chk_blank r) = true -> chk_core_upto true r = chk_core_upto true d.
+Proof.
+  unfold chk_isame, chk_cmp, chk_core_upto, chk_blank. cbn. intros H. apply bool_decide_eq_true in H.
+  injection H as E1 E2 E4 E5 E6. rewrite E1, E2, E4. reflexivity.
+Qed.
+
+(* after the diff a live check marked in sync is held — up to its Output when a deferred-output
+   timer is pending (the diff blanks the Output on both sides in that case) *)
 Lemma uss_held_chk g st c id e d :
   l_chks (uss_apply g st c) !! id = Some e -> ce_sync e = true -> ce_del e = false -> ce_def e = Some d ->
-  holds_chk c id d.
+  holds_ce c id e d.
 Proof.
-  intros L S D F. rewrite uss_chks_lookup in L. unfold holds_chk.
-  assert (L' : uss_chk (l_chks st !! id) (c_chks c !! id) = Some e).
+  intros L S D F. rewrite uss_chks_lookup in L. unfold holds_ce, holds_chk_upto.
+  assert (L' : uss_chk (g_interval g) (l_chks st !! id) (c_chks c !! id) = Some e).
   { destruct (decide (g_serf g = id)); [|exact L]. destruct (l_chks st !! id); [exact L|discriminate]. }
   clear L. unfold uss_chk in L'.
   destruct (l_chks st !! id) as [e0|], (c_chks c !! id) as [r|]; try discriminate.
   - destruct (ce_del e0) eqn:D0; [injection L' as <-; congruence|].
     destruct (ce_def e0) as [d0|] eqn:F0; [|injection L' as <-; congruence].
-    injection L' as <-. cbn in *. apply bool_decide_eq_true in S. exists r. split; [reflexivity|congruence].
+    injection L' as <-. cbn in *. assert (d0 = d) by congruence. subst d0. exists r. split; [reflexivity|].
+    destruct (g_interval g && ce_defer e0) eqn:B.
+    + apply andb_true_iff in B as [_ B]. rewrite B. apply chk_isame_blank_core. exact S.
+    + apply chk_isame_core. exact S.
   - injection L' as <-. cbn in S. discriminate.
   - injection L' as <-. cbn in D. discriminate.
 Qed.
@@ -174,7 +191,7 @@ Lemma uss_chks_old g st c id e0 :
             ce_tok e = ce_tok e0 /\ ce_loc e = ce_loc e0.
 Proof.
   intros L. rewrite uss_chks_lookup, L.
-  assert (X : exists e, uss_chk (Some e0) (c_chks c !! id) = Some e /\ ce_del e = ce_del e0 /\ ce_def e = ce_def e0 /\
+  assert (X : exists e, uss_chk (g_interval g) (Some e0) (c_chks c !! id) = Some e /\ ce_del e = ce_del e0 /\ ce_def e = ce_def e0 /\
             ce_tok e = ce_tok e0 /\ ce_loc e = ce_loc e0).
   { unfold uss_chk. destruct (c_chks c !! id) as [r|].
     - destruct (ce_del e0) eqn:D0; [exists e0; auto|].
@@ -244,7 +261,7 @@ Theorem no_false_insync_full g os oc st c fs st' c' fs' log err :
   ((forall id e d, l_svcs st' !! id = Some e -> se_sync e = true -> se_del e = false -> se_def e = Some d ->
       holds_svc c' id d \/ refused_svc log id) /\
    (forall id e d, l_chks st' !! id = Some e -> ce_sync e = true -> ce_del e = false -> ce_def e = Some d ->
-      holds_chk c' id d \/ refused_chk log id)).
+      holds_ce c' id e d \/ refused_chk log id)).
 Proof.
   intros W C0 E. apply sync_full_cases in E as [(-> & -> & -> & _)|(fs1 & la & lb & _ & _ & E & ->)]; [auto|]. right.
   pose proof (sync_changes_INV _ _ _ _ _ _ _ _ _ _ _ (uss_wf_local g st c W C0) E) as I. split.
